@@ -87,6 +87,11 @@ func (p *prefixedReadSeekCloser) Seek(offset int64, whence int) (int64, error) {
 		return 0, fmt.Errorf("seeking bytes: %w", err)
 	}
 
+	if offset == skipBytes {
+		// all skipped bytes are buffered, the rest (may be exhausted) is not touched
+		return 0, nil
+	}
+
 	return p.rest.Seek(offset-skipBytes, whence)
 }
 
